@@ -893,8 +893,8 @@ Proof.
     destruct PYOK as [_ [Ls [Ns Ks]]].
     rewrite fill_pos_length in Lv, Ls by lia.
     rewrite R3.
-    rewrite (none_in_pos_eq V s pos kws k nf W Lk Lnf values' slots' Lv Ls Nv Ns) by lia.
-    rewrite (missing_kw_eq V s pos kws k nf W Lk Lnf values' slots' Lv Ls Nv Ns).
+    rewrite (none_in_pos_eq V s pos kws k nf Lk Lnf values' slots' Lv Ls Nv Ns) by lia.
+    rewrite (missing_kw_eq V s pos kws k nf Lk Lnf values' slots' Lv Ls Nv Ns).
     assert (G : (nreq_posonly s <? minpos s) && none_in slots' nargs (minpos s) = none_in slots' nargs (minpos s)).
     { destruct (Nat.ltb_spec (nreq_posonly s) (minpos s)); [reflexivity|]. simpl. unfold none_in.
       replace (minpos s - nargs) with 0 by lia. reflexivity. }
@@ -907,4 +907,241 @@ Proof.
     rewrite Kv, Ks. unfold kw0, kwdict. destruct (s_starstar s) eqn:SS; simpl in *; [|reflexivity].
     apply negb_false_iff in U. rewrite U. simpl. f_equal. apply filter_ext. intros kv.
     rewrite argnames_eq. apply kw_unknown_perm, Ksn_perm.
+Qed.
+
+(* ---------- the keyword-less branch ---------- *)
+Lemma ref_at_nil : forall V names first off (values : list (option V)) a,
+  nth a values None = ref_at names first off [] values a.
+Proof. intros. unfold ref_at. simpl. destruct (_ && _); reflexivity. Qed.
+
+Lemma none_in_fill : forall V (pos : list V) n k lo hi, k <= lo ->
+  none_in (fill_pos n k pos) lo hi = (lo <? hi).
+Proof.
+  intros V pos n k lo hi L. unfold none_in. destruct (Nat.ltb_spec lo hi) as [C|C].
+  - apply existsb_exists. exists lo. split; [apply in_seq; lia|]. rewrite nth_fill_pos.
+    replace (lo <? Nat.min k (length pos)) with false by (symmetry; apply Nat.ltb_ge; lia). reflexivity.
+  - replace (hi - lo) with 0 by lia. reflexivity.
+Qed.
+
+Lemma kw_erase_eq : forall V s, wfs s ->
+  (if s_starstar s && negb (s_kwused s) then None else (if s_starstar s && s_kwused s then Some (@nil (key * V)) else None)) =
+  (if s_starstar s && negb (s_kwused s) then None else (if s_starstar s then Some (@nil (key * V)) else None)).
+Proof. intros V s W. destruct (wf_used _ W) as [U|U]; rewrite U; [destruct (s_kwused s)|destruct (s_starstar s)]; reflexivity. Qed.
+
+Lemma nokw_bound : forall V s (pos : list V) X, wfs s -> X = Nat.min (length pos) (maxpos s) ->
+  erase s (Bound (readout_cy s (fill_pos (length (all_args s)) X pos))
+                 (if s_star s then Some (skipn (maxpos s) pos) else None)
+                 (if s_starstar s && s_kwused s then Some [] else None)) =
+  erase s (Bound (readout_py (declared s) (fill_pos (length (declared s)) (Nat.min (length pos) (maxpos s)) pos))
+                 (if s_star s then Some (skipn (Nat.min (length pos) (maxpos s)) pos) else None)
+                 (if s_starstar s then Some [] else None)).
+Proof.
+  intros V s pos X W ->. simpl. destruct (sig_lengths s) as [E1 [E2 [E3 E4]]].
+  set (k := Nat.min (length pos) (maxpos s)).
+  assert (Lk : k <= length pos /\ k <= maxpos s) by (unfold k; lia).
+  rewrite (readout_eq V s pos [] k 0 W Lk (Nat.le_0_l _) _ (fill_pos (length (declared s)) k pos)).
+  - unfold k. rewrite skipn_min. rewrite kw_erase_eq by exact W. reflexivity.
+  - apply fill_pos_length; lia.
+  - apply fill_pos_length; lia.
+  - intros a. apply ref_at_nil.
+  - intros a. apply ref_at_nil.
+Qed.
+
+Lemma generic_nokw : forall V pth s (c : call V), wfs s -> c_kws c = [] ->
+  erase s (bind_generic pth s c) = erase s (bind_py s c).
+Proof.
+  intros V pth s [pos kws] W E. simpl in E. subst kws.
+  destruct (sig_lengths s) as [E1 [E2 [E3 E4]]]. destruct (req_counts s) as [R1 [R2 [R3 R4]]].
+  unfold bind_generic, bind_py. simpl c_pos. simpl c_kws. simpl py_kw. cbv iota. simpl (0 <? length []). cbv iota.
+  rewrite R3.
+  set (k := Nat.min (length pos) (maxpos s)).
+  assert (Lk : k <= length pos /\ k <= maxpos s) by (unfold k; lia).
+  rewrite none_in_fill by (unfold k; lia).
+  assert (B : missing_kwonly (maxpos s) (s_kwonly s) (fill_pos (length (declared s)) k pos) = (0 <? nreq_kw s)).
+  { rewrite <- (missing_kw_eq V s pos [] k 0 Lk (Nat.le_0_l _) (fill_pos (length (all_args s)) k pos)).
+    - rewrite none_in_fill by lia. destruct (Nat.ltb_spec 0 (nreq_kw s)); [apply Nat.ltb_lt|apply Nat.ltb_ge]; lia.
+    - apply fill_pos_length; lia.
+    - apply fill_pos_length; lia.
+    - intros a. apply ref_at_nil.
+    - intros a. apply ref_at_nil. }
+  rewrite B. unfold bind_nokw.
+  pose proof (nokw_bound V s pos (maxpos s) W) as NB1.
+  pose proof (nokw_bound V s pos (length pos) W) as NB2.
+  fold k in NB1, NB2.
+  set (nargs := length pos) in *. set (mn := minpos s) in *. set (mx := maxpos s) in *. set (r := nreq_kw s) in *.
+  destruct (s_star s) eqn:ST;
+  destruct (Nat.ltb_spec 0 r); destruct (Nat.ltb_spec 0 mn); destruct (Nat.eqb_spec mn mx);
+  destruct (Nat.ltb_spec mx nargs); destruct (Nat.ltb_spec nargs mn); destruct (Nat.eqb_spec nargs mn);
+  destruct (Nat.ltb_spec mn mx); simpl negb; simpl andb; simpl orb; cbv iota;
+  try lia; try reflexivity; try (apply NB1; unfold k; lia); try (apply NB2; unfold k; lia).
+Qed.
+
+(* ---------- signatures without named parameters ---------- *)
+Lemma all_str_nonstr : forall V (kws : list (key * V)), all_str kws -> nonstr_in kws = false.
+Proof.
+  intros V kws H. unfold nonstr_in. destruct (existsb _ kws) eqn:E; [|reflexivity].
+  apply existsb_exists in E as [kv [I N]]. rewrite (H kv I) in N. discriminate.
+Qed.
+
+Lemma dict_update_fresh : forall V (kws d : list (key * V)), keys_nodup kws = true ->
+  (forall kv kv', In kv kws -> In kv' d -> key_same (fst kv') (fst kv) = false) ->
+  dict_update d kws = d ++ kws.
+Proof.
+  unfold dict_update. intros V kws; induction kws as [|[k v] rest IH]; intros d KN DJ; simpl.
+  - rewrite app_nil_r. reflexivity.
+  - apply keys_nodup_cons in KN as [KH KN].
+    rewrite dict_set_fresh by (intros kv' I; apply (DJ (k, v) kv'); [left; reflexivity|exact I]).
+    rewrite IH; [rewrite <- app_assoc; reflexivity|exact KN|].
+    intros kv kv' I I'. apply in_app_or in I' as [I'|[<-|[]]].
+    + apply DJ; [right; exact I|exact I'].
+    + simpl. apply KH. exact I.
+Qed.
+
+Lemma py_kw_nil_some : forall V (kws : list (key * V)) slots d, all_str kws ->
+  py_kw kws [] 0 slots (Some d) = inr (slots, Some (dict_update d kws)).
+Proof.
+  intros V kws; induction kws as [|[k v] rest IH]; intros slots d AS; [reflexivity|].
+  apply all_str_cons in AS as [S AS]. simpl in S. simpl. rewrite S. simpl. unfold find_from. simpl.
+  rewrite IH by exact AS. reflexivity.
+Qed.
+
+Lemma py_kw_nil_none : forall V k v (rest : list (key * V)) slots, is_str k = true ->
+  py_kw ((k, v) :: rest) [] 0 slots None = inl EUnexpected.
+Proof. intros. simpl. rewrite H. reflexivity. Qed.
+
+Lemma no_params : forall s, length (all_args s) = 0 ->
+  s_posonly s = [] /\ s_poskw s = [] /\ s_kwonly s = [].
+Proof.
+  intros s H. destruct (sig_lengths s) as [E1 [E2 [E3 E4]]]. unfold npo in E3.
+  repeat split; apply length_zero_iff_nil; lia.
+Qed.
+
+Lemma starcopy_eq : forall V pth s (c : call V), wfs s -> length (all_args s) = 0 ->
+  all_str (c_kws c) -> keys_nodup (c_kws c) = true ->
+  erase s (bind_starcopy pth s c) = erase s (bind_py s c).
+Proof.
+  intros V pth s [pos kws] W L0 AS KN. simpl in AS, KN.
+  destruct (no_params s L0) as [EP [EQ EK]].
+  unfold bind_starcopy, bind_py, declared, maxpos, positional_args, npo, optional. simpl c_pos. simpl c_kws.
+  rewrite EP, EQ, EK. simpl app. simpl length. rewrite Nat.min_0_r. simpl map. simpl filter. simpl length.
+  rewrite (all_str_nonstr _ _ AS).
+  change (fill_pos 0 0 pos) with (@nil (option V)).
+  assert (RK : forall e, e = reject_keywords pth kws -> e <> EImpossible).
+  { intros e ->. unfold reject_keywords. rewrite (all_str_nonstr _ _ AS). destruct pth; discriminate. }
+  assert (NI : forall lo, none_in (@nil (option V)) lo (0 - 0) = false) by reflexivity.
+  destruct (s_starstar s) eqn:SS.
+  - rewrite py_kw_nil_some by exact AS.
+    rewrite dict_update_fresh by (auto; intros ? ? ? []). simpl app.
+    destruct (s_star s) eqn:ST; simpl negb; simpl andb.
+    + rewrite andb_false_r. rewrite NI. simpl.
+      destruct kws as [|kv rest]; simpl; rewrite ?SS; [destruct (s_kwused s); reflexivity|].
+      destruct pth; simpl; rewrite ?SS; destruct (s_kwused s); simpl; try reflexivity;
+        rewrite (dict_update_fresh V (kv :: rest) [] KN) by (intros ? ? ? []); reflexivity.
+    + rewrite andb_true_r. destruct (0 <? length pos); [reflexivity|]. rewrite NI. simpl.
+      destruct kws as [|kv rest]; simpl; rewrite ?SS; [destruct (s_kwused s); reflexivity|].
+      destruct pth; simpl; rewrite ?SS; destruct (s_kwused s); simpl; try reflexivity;
+        rewrite (dict_update_fresh V (kv :: rest) [] KN) by (intros ? ? ? []); reflexivity.
+  - destruct kws as [|[k v] rest].
+    + simpl. destruct (s_star s); simpl; rewrite ?andb_false_r, ?andb_true_r, ?SS; simpl.
+      * rewrite ?SS. reflexivity.
+      * destruct (0 <? length pos); simpl; rewrite ?SS; reflexivity.
+    + apply all_str_cons in AS as [S _]. simpl in S. rewrite py_kw_nil_none by exact S.
+      destruct (negb (s_star s) && (0 <? length pos)); [reflexivity|].
+      change (0 <? Datatypes.S (length rest)) with true. cbv iota.
+      rewrite (erase_err V s (reject_keywords pth ((k, v) :: rest))) by (apply RK; reflexivity). reflexivity.
+Qed.
+
+Lemma noargs_eq : forall V s (c : call V), wfs s -> wf_path PNoArgs s = true ->
+  all_str (c_kws c) -> keys_nodup (c_kws c) = true ->
+  erase s (bind_noargs c) = erase s (bind_py s c).
+Proof.
+  intros V s c W WP AS KN. simpl in WP. apply andb_true_iff in WP as [WP SS]. apply andb_true_iff in WP as [L ST].
+  apply Nat.eqb_eq in L. apply negb_true_iff in SS, ST.
+  assert (L0 : length (all_args s) = 0) by (destruct (sig_lengths s) as [E1 [E2 [E3 E4]]]; lia).
+  rewrite <- (starcopy_eq V PTuple s c W L0 AS KN).
+  unfold bind_noargs, bind_starcopy. rewrite SS, ST. simpl.
+  destruct (0 <? length (c_kws c)); destruct (0 <? length (c_pos c)); reflexivity.
+Qed.
+
+Lemma metho_eq : forall V s (c : call V), wfs s -> wf_path PMethO s = true ->
+  all_str (c_kws c) -> keys_nodup (c_kws c) = true ->
+  erase s (bind_metho s c) = erase s (bind_py s c).
+Proof.
+  intros V s c W WP AS KN. simpl in WP. apply andb_true_iff in WP as [WP SS]. apply andb_true_iff in WP as [WP ST].
+  apply andb_true_iff in WP as [WP L]. apply Nat.eqb_eq in L. rewrite app_length in L.
+  apply negb_true_iff in SS, ST.
+  destruct (s_posonly s) as [|p [|? ?]] eqn:EP; try discriminate. apply negb_true_iff in WP.
+  assert (EQ : s_poskw s = []) by (apply length_zero_iff_nil; lia).
+  assert (EK : s_kwonly s = []) by (apply length_zero_iff_nil; lia).
+  destruct (0 <? length (c_kws c)) eqn:NE.
+  - rewrite <- (generic_kw V PTuple s c W (parser_ok_tuple PTuple ltac:(discriminate)) AS KN NE).
+    unfold bind_metho, bind_generic. rewrite NE. unfold accept_kwd_args, argnames, kw_only_args, required, optional.
+    rewrite EQ, EK, SS. reflexivity.
+  - assert (E0 : c_kws c = []) by (destruct (c_kws c); [reflexivity|discriminate]).
+    rewrite <- (generic_nokw V PTuple s c W E0).
+    unfold bind_metho, bind_generic. rewrite NE. unfold bind_nokw, readout_cy, minpos, maxpos, nreq_kw, all_args,
+      positional_args, kw_only_args, required, optional, declared.
+    rewrite EP, EQ, EK, SS, ST. simpl. rewrite WP. simpl.
+    destruct (c_pos c) as [|v [|? ?]]; simpl; try reflexivity.
+    unfold assoc. simpl. rewrite Nat.eqb_refl. simpl. rewrite WP. reflexivity.
+Qed.
+
+(* non-str keys reaching a dict-convention wrapper are rejected by the generated code itself *)
+Lemma dict_nonstr : forall V s (c : call V), nonstr_in (c_kws c) = true ->
+  exists e, bind_cy PDict s c = TypeErr e /\ e <> EImpossible.
+Proof.
+  intros V s [pos kws] NS. simpl in NS.
+  assert (NE : (0 <? length kws) = true) by (destruct kws; [discriminate|reflexivity]).
+  unfold bind_cy. destruct (length (all_args s) =? 0).
+  - unfold bind_starcopy. simpl c_pos. simpl c_kws. rewrite NE, NS.
+    destruct (negb (s_star s) && (0 <? length pos)); [eexists; split; [reflexivity|discriminate]|].
+    destruct (s_starstar s); [eexists; split; [reflexivity|discriminate]|].
+    simpl. rewrite NS. eexists; split; [reflexivity|discriminate].
+  - unfold bind_generic. simpl c_pos. simpl c_kws. rewrite NE.
+    destruct (accept_kwd_args s); simpl negb; cbv iota.
+    2:{ simpl. rewrite NS. eexists; split; [reflexivity|discriminate]. }
+    destruct (posargs_kw s pos); [|eexists; split; [reflexivity|discriminate]].
+    unfold parse_keywords. destruct (s_starstar s && s_kwused s).
+    + unfold parse_dict2dict. rewrite NS. eexists; split; [reflexivity|discriminate].
+    + unfold parse_dict. rewrite NS. eexists; split; [reflexivity|discriminate].
+Qed.
+
+(* ---------- main theorem ---------- *)
+Theorem bind_cy_py : forall V pth s (c : call V),
+  wf_sig s = true -> wf_path pth s = true -> keys_nodup (c_kws c) = true -> nonstr_in (c_kws c) = false ->
+  (length (all_args s) <> 0 -> parser_ok pth) ->
+  erase s (bind_cy pth s c) = erase s (bind_py s c).
+Proof.
+  intros V pth s c WS WP KN NS PO. apply wf_sig_wfs in WS. apply nonstr_in_false in NS.
+  destruct pth; try (apply noargs_eq; assumption); try (apply metho_eq; assumption);
+  unfold bind_cy; destruct (Nat.eqb_spec (length (all_args s)) 0) as [L0|L0];
+  try (apply starcopy_eq; assumption);
+  (destruct (0 <? length (c_kws c)) eqn:NE;
+   [apply generic_kw; auto
+   |apply generic_nokw; [assumption|destruct (c_kws c); [reflexivity|discriminate]]]).
+Qed.
+
+Theorem call_eq_param : forall V vc pth s (c : call V),
+  wf_sig s = true -> wf_path pth s = true -> wf_entry vc pth = true -> keys_nodup (c_kws c) = true ->
+  (length (all_args s) <> 0 -> parser_ok pth) ->
+  erase s (call_cy vc pth s c) = erase s (call_py s c).
+Proof.
+  intros V vc pth s c WS WP WE KN PO. unfold call_cy, call_py.
+  destruct (nonstr_in (c_kws c)) eqn:NS.
+  - rewrite andb_true_r. destruct vc; [reflexivity|].
+    destruct pth; try discriminate.
+    + destruct (dict_nonstr V s c NS) as [e [E N]]. rewrite E. apply erase_err. exact N.
+    + unfold bind_cy, bind_noargs. destruct (c_kws c); [discriminate|reflexivity].
+    + unfold bind_cy, bind_metho. destruct (c_kws c); [discriminate|reflexivity].
+  - rewrite andb_false_r. apply bind_cy_py; assumption.
+Qed.
+
+(* every calling convention except a named-parameter wrapper entered with a kwds dict *)
+Theorem call_eq_partial : forall V vc pth s (c : call V),
+  wf_sig s = true -> wf_path pth s = true -> wf_entry vc pth = true -> keys_nodup (c_kws c) = true ->
+  (pth <> PDict \/ length (all_args s) = 0) ->
+  erase s (call_cy vc pth s c) = erase s (call_py s c).
+Proof.
+  intros V vc pth s c WS WP WE KN H. apply call_eq_param; auto.
+  intros L. destruct H as [H|H]; [apply parser_ok_tuple; exact H|contradiction].
 Qed.
